@@ -77,13 +77,15 @@ func (p *parser) parseOperationDefinition() *OperationDefinition {
 
 func (p *parser) parseOperationType() Operation {
 	tok := p.next()
-	switch tok.Value {
-	case "query":
-		return Query
-	case "mutation":
-		return Mutation
-	case "subscription":
-		return Subscription
+	if tok.Kind == lexer.Name {
+		switch tok.Value {
+		case "query":
+			return Query
+		case "mutation":
+			return Mutation
+		case "subscription":
+			return Subscription
+		}
 	}
 	p.unexpectedToken(tok)
 	return ""
@@ -208,7 +210,7 @@ func (p *parser) parseFragment() Selection {
 	var def InlineFragment
 	def.Position = p.peekPos()
 	def.Comment = comment
-	if p.peek().Value == "on" {
+	if peek := p.peek(); peek.Kind == lexer.Name && peek.Value == "on" {
 		p.next() // "on"
 
 		def.TypeCondition = p.parseName()
